@@ -1306,6 +1306,186 @@ pub fn run_c12_hist(ctx: &Ctx, st: &mut Local) {
     e.exhaustive = true;
 }
 
+/// libzstd's one-shot encoder, called directly (the harness's own frames around damaged containers)
+pub fn zstd_frame(data: &[u8]) -> Vec<u8> {
+    extern "C" {
+        fn ZSTD_compress(dst: *mut u8, cap: usize, src: *const u8, n: usize, level: i32) -> usize;
+        fn ZSTD_isError(code: usize) -> u32;
+    }
+    let mut out = vec![0u8; comp::zstd_compress_bound(data.len())];
+    unsafe {
+        let r = ZSTD_compress(out.as_mut_ptr(), out.len(), data.as_ptr(), data.len(), 3);
+        assert!(ZSTD_isError(r) == 0, "HARNESS-BUG: ZSTD_compress failed");
+        out.truncate(r);
+    }
+    out
+}
+
+/// valid zstd frames that carry a damaged (tiny or truncated) intermediate form: whatever happens inside, WrapperDecompressZip has to
+/// come back with a status (internal panics are its -2), stay inside the caller's buffer and never take the process down
+pub fn run_c12_damaged(ctx: &Ctx, st: &mut Local) {
+    let name = "E14dmg";
+    if !ctx.engine_on(name) {
+        return;
+    }
+    let s = ctx.cur;
+    let mut inputs: Vec<Vec<u8>> = Vec::new();
+    // tiny intermediate forms: every string of length <= 2, and version byte 01 followed by <= 3 bytes of a small alphabet
+    inputs.push(vec![]);
+    for a in 0..=255u8 {
+        inputs.push(vec![a]);
+    }
+    for a in [0u8, 1, 2, 3, 0xff] {
+        for b in 0..=255u8 {
+            inputs.push(vec![a, b]);
+        }
+    }
+    let al = [0u8, 1, 2, 3, 4, 0x7f, 0x80, 0xff];
+    for &a in &al {
+        for &b in &al {
+            inputs.push(vec![1, a, b]);
+            for &c in &al {
+                inputs.push(vec![1, a, b, c]);
+            }
+        }
+    }
+    // containers of real files: every prefix, and every substitution from the alphabet in the first 32 bytes
+    let mut files = file_menu(true);
+    files.retain(|(_, f)| f.len() <= 2400 && !f.is_empty());
+    files.sort_by_key(|(_, f)| f.len());
+    let n = files.len();
+    let step = if ctx.quick() { (n / 5).max(1) } else { (n / 16).max(1) };
+    let mut nfiles = 0;
+    for (_, f) in files.iter().step_by(step) {
+        if let Ok(Ok(e)) = caught(|| s.expand(f)) {
+            nfiles += 1;
+            let pstep = if ctx.quick() && e.len() > 300 { 7 } else { 1 };
+            for k in (0..e.len()).step_by(pstep) {
+                inputs.push(e[..k].to_vec());
+            }
+            // (substitutions inside a container are left out on purpose: reconstruction from garbled corrections can
+            // run for an unbounded time with unbounded memory, which no property rules out and the harness cannot host)
+        }
+    }
+    let mut idx = 0u64;
+    for inp in &inputs {
+        let i = idx;
+        idx += 1;
+        count(ctx, name, st, i, true);
+        if !ctx.take(name, i) {
+            continue;
+        }
+        let z = zstd_frame(inp);
+        if std::env::var("PFV_DEBUG").is_ok() {
+            eprintln!("E14dmg #{} intermediate form ({} bytes) {}", i, inp.len(), inp.iter().take(64).map(|b| format!("{:02x}", b)).collect::<String>());
+        }
+        st.sample(name, || format!("#{} intermediate form {} in a valid zstd frame", i, hex_short(inp)));
+        ctx.begin(name, i, 20_000);
+        let cap = 1usize << 16;
+        let mut g = Guarded::new(cap);
+        let mut rs: u64 = 0;
+        let rc = unsafe { s.c_decompress(z.as_ptr(), z.len() as u64, g.ptr(), cap as u64, &mut rs) };
+        ctx.end();
+        if !g.intact() {
+            st.violation(ctx.viol(name, i, "write-outside-buffer", None, format!("WrapperDecompressZip wrote outside the {} byte buffer (status {})", cap, rc), inp));
+        } else if rc == 0 && rs as usize > cap {
+            st.violation(ctx.viol(name, i, "result-size-beyond-buffer", None, format!("status 0 with result_size {} > {}", rs, cap), inp));
+        } else if rc > 0 {
+            st.violation(ctx.viol(name, i, "positive-status", None, format!("status {}", rc), inp));
+        } else {
+            st.outcome(name, if rc == 0 { "status-0" } else if rc == -2 { "status--2(internal panic mapped)" } else { "negative-status" });
+        }
+    }
+    let e = st.eng(name);
+    e.bound = format!("{} damaged intermediate forms inside valid zstd frames: all strings of length <= 2 (second byte free for 5 first bytes), 01 + <= 3 bytes over an 8-letter alphabet, every {}prefix of the containers of {} files", inputs.len(), if ctx.quick() { "(7th, for containers > 300 bytes) " } else { "" }, nfiles);
+    e.exhaustive = true;
+}
+
+/// caller-owned buffers reused across calls: the same input address (and length) carrying a different file, after a
+/// failed or a successful call
+pub fn run_c12_buf(ctx: &Ctx, st: &mut Local) {
+    let name = "E14buf";
+    if !ctx.engine_on(name) {
+        return;
+    }
+    let s = ctx.cur;
+    let mut files = file_menu(true);
+    files.retain(|(_, f)| f.len() <= 2400 && !f.is_empty());
+    files.sort_by_key(|(_, f)| f.len());
+    let n = files.len();
+    let pick: Vec<usize> = if ctx.quick() { (0..n).step_by((n / 7).max(1)).collect() } else { (0..n).step_by((n / 14).max(1)).collect() };
+    let mut idx = 0u64;
+    for &a in &pick {
+        for &b in &pick {
+            for first_cap in 0..2 {
+                for same_len in [true, false] {
+                    let i = idx;
+                    idx += 1;
+                    count(ctx, name, st, i, true);
+                    if !ctx.take(name, i) {
+                        continue;
+                    }
+                    let fa = files[a].1.clone();
+                    // the second file: B, cut or zero-padded to A's length when the length is to stay the same
+                    let mut fb = files[b].1.clone();
+                    if same_len {
+                        fb.resize(fa.len(), 0);
+                        if fb == fa {
+                            let k = fb.len() / 2;
+                            fb[k] ^= 0x20;
+                        }
+                    }
+                    st.sample(name, || format!("#{} compress({}) into a {} buffer, then the same input buffer carries {} ({})", i, files[a].0,
+                        if first_cap == 0 { "far too small" } else { "sufficient" }, files[b].0, if same_len { "same length" } else { "own length" }));
+                    ctx.begin(name, i, 60_000);
+                    let (fa2, fb2) = (fa.clone(), fb.clone());
+                    let res = std::thread::scope(|sc| {
+                        sc.spawn(move || {
+                            let maxlen = fa2.len().max(fb2.len());
+                            let mut inbuf = vec![0u8; maxlen];
+                            let cap = comp::zstd_compress_bound(maxlen * 2 + 4096);
+                            let mut out = Guarded::new(cap);
+                            let mut rs: u64 = 0;
+                            inbuf[..fa2.len()].copy_from_slice(&fa2);
+                            let cap1 = if first_cap == 0 { 8 } else { cap };
+                            let rc1 = unsafe { s.c_compress(inbuf.as_ptr(), fa2.len() as u64, out.ptr(), cap1 as u64, &mut rs) };
+                            inbuf[..fb2.len()].copy_from_slice(&fb2);
+                            let mut rs2: u64 = 0;
+                            let rc2 = unsafe { s.c_compress(inbuf.as_ptr(), fb2.len() as u64, out.ptr(), cap as u64, &mut rs2) };
+                            if rc2 != 0 || rs2 as usize > cap {
+                                return (rc1, rc2, -1, vec![]);
+                            }
+                            let z = out.out(rs2 as usize).to_vec();
+                            let mut back = Guarded::new(fb2.len() + 64);
+                            let mut rs3: u64 = 0;
+                            let rc3 = unsafe { s.c_decompress(z.as_ptr(), z.len() as u64, back.ptr(), (fb2.len() + 64) as u64, &mut rs3) };
+                            (rc1, rc2, rc3, if rc3 == 0 && rs3 as usize <= fb2.len() + 64 { back.out(rs3 as usize).to_vec() } else { vec![] })
+                        })
+                        .join()
+                        .unwrap_or((-99, -99, -99, vec![]))
+                    });
+                    ctx.end();
+                    let (rc1, rc2, rc3, back) = res;
+                    if first_cap == 0 && rc1 >= 0 {
+                        st.violation(ctx.viol(name, i, "undersized-compress-not-negative", None, format!("WrapperCompressZip({}) into 8 bytes returns {}", files[a].0, rc1), &fa));
+                    } else if rc2 != 0 {
+                        st.violation(ctx.viol(name, i, "compress-fails-after-history", None, format!("second WrapperCompressZip returns {}", rc2), &fb));
+                    } else if rc3 != 0 || back != fb {
+                        st.violation(ctx.viol(name, i, "buffer-reuse-returns-other-file", None,
+                            format!("the input buffer was refilled with {} ({} bytes) after a {} call on {}; compress + decompress returns status {} and {} bytes that {} the refilled content",
+                                files[b].0, fb.len(), if first_cap == 0 { "failed" } else { "successful" }, files[a].0, rc3, back.len(), if back == fa { "equal the PREVIOUS content, not" } else { "differ from" }), &fb));
+                    } else {
+                        st.outcome(name, "buffer-reuse-ok");
+                    }
+                }
+            }
+        }
+    }
+    let e = st.eng(name);
+    e.bound = format!("every ordered pair of {} files through WrapperCompressZip from ONE input buffer (same address; same or own length), the first call failing (8-byte output) or succeeding; result decompressed and compared", pick.len());
+    e.exhaustive = true;
+}
+
 /// files whose expanded form approaches the 128 MiB bound of the intermediate form
 pub fn run_c12_big(ctx: &Ctx, st: &mut Local) {
     let name = "E14big";
